@@ -36,6 +36,16 @@ CLAIMS = {
          'TLC enumerates every binder program reachable by wrapping (bodies, ranges, arguments, reads after the binder; two variable names force shadowing) with its value in the outer environment, checks the no-leak / let-is-for / call-is-let / nested-for laws on the specification, and the programs are evaluated by the 2.0/3.0/3.1 parsers; every history of 3 (4) evaluations over 3 contexts is replayed on one Selector and one token for 57 expressions and compared with a fresh parse on a fresh context; caller inputs (document text, variable values incl. tzinfo, namespaces) are compared after every evaluation.',
          'programs over integers/booleans only, depth 2 (quick) / 3 (thorough); ill-typed programs excluded by the WellTyped constraint; history templates are a fixed pool (paths, maps, arrays, inline functions, dateTime/implicit timezone) plus sampled Scopes programs; the oracle for histories is, as the property states, a fresh parse on a fresh context',
          'DESIGN.md section 4 C05'),
+ 'C07': ('model_checking',
+         'TLA+ specs EBV, Compare and Logic (value comparison table, general comparison as existential closure with the untypedAtomic and XPath 1.0 compatibility rules, EBV table, and/or/not/if) checked by TLC; every edge of the dumped graph (operand sequences x operators x families x modes) replayed through the 1.0/2.0/3.0/3.1 parsers; libxml2 cross-check for the XPath 1.0 vectors',
+         'TLC builds pairs of operand sequences (length <= 2, thorough 3) over 58 typed values, computes for every configuration (2.0/3.0/3.1, compatibility mode, XPath 1.0) the SET of permitted outcomes (boolean, empty, XPTY0004, FORG0001, FORG0006), checks order laws, closure, De Morgan/absorption and if-by-EBV on the specification, and each edge is evaluated on the real parsers with operands rendered as constructor calls and nodes.',
+         'no second oracle beyond libxml2 for 1.0 vectors: mismatches adjudicated by the W3C text (refs in known_findings.d/C07.json); date/time values are timezone-free (implicit timezone belongs to C11); untypedAtomic vs QName marked unspecified',
+         'DESIGN.md section 4 C07'),
+ 'C03': ('model_checking',
+         'TLA+ specs Outcome (legal outcome shapes), Tokens (token-sequence machine with a grammar recogniser and one-token mutations), ParserLife (cursor reset and history independence of one parser instance) and TraceParserLife (trace validation); token sequences, mutants of harvested suite expressions and parse histories from TLC replayed on the four parsers; parse_call/parse_ret traces of the histories validated by TLC',
+         'TLC enumerates every token sequence of length <= 3 over 58 representative tokens (<= 4 over 31 in thorough), TLC-chosen one-token mutations of the expressions harvested from the repository suite, and every history of <= 3 parse calls over 9 source classes on 2 instances; each is parsed by the four parsers and evaluated in three contexts with the outcome projected to value | coded error | escaped | hang and tested for membership in the legal sets printed by TLC; cursor fields after failures and history independence are compared with a fresh instance; recorded traces are accepted by the trace specification.',
+         'escape classes are fingerprinted by (exception class, raising function): a new way to reach a listed class is absorbed by it; hang detection by SIGALRM with a circuit breaker; arbitrary Unicode garbage is not enumerated by TLC',
+         'DESIGN.md section 4 C03'),
 }
 NOT_YET = 'check not built yet (construction in progress, see DESIGN.md section 5)'
 
